@@ -416,7 +416,13 @@ type tunnelCase struct {
 	Empty  bool   `json:"empty_write_between"`
 	Closer string `json:"closer"` // client | upstream
 	TLS    bool   `json:"tls_cluster,omitempty"`
+	// Greet: the upstream end speaks first (a greeting written on accept,
+	// before the client has written anything); the client reads it before
+	// its first write
+	Greet bool `json:"upstream_speaks_first,omitempty"`
 }
+
+const tunnelGreeting = "220 upstream speaks first\r\n"
 
 // echoServer: a TCP-level upstream behaviour shared by all paths: echo
 // everything; if limit >= 0 close after echoing limit bytes.
@@ -428,6 +434,7 @@ type echoBehaviour struct {
 	// write fails (a streaming service); writeFailed reports that
 	stream      atomic.Bool
 	writeFailed chan struct{}
+	greet       atomic.Bool
 }
 
 func (e *echoBehaviour) serve(c net.Conn) {
@@ -448,6 +455,11 @@ func (e *echoBehaviour) serve(c net.Conn) {
 				return
 			}
 			time.Sleep(time.Millisecond)
+		}
+	}
+	if e.greet.Load() {
+		if _, err := c.Write([]byte(tunnelGreeting)); err != nil {
+			return
 		}
 	}
 	limit := e.limit.Load()
@@ -613,11 +625,20 @@ func (w *tunnelWorld) run(c tunnelCase) (sig, msg string) {
 	w.echo.limit.Store(limit)
 	w.echo.stream.Store(c.Closer == "client-while-upstream-streams")
 	defer w.echo.stream.Store(false)
+	w.echo.greet.Store(c.Greet)
+	defer w.echo.greet.Store(false)
 	conn, err := w.open(c.Path)
 	if err != nil {
 		return "tunnel-open-failed", desc + ": " + err.Error()
 	}
 	defer conn.Close()
+	if c.Greet {
+		_ = conn.SetDeadline(time.Now().Add(30 * time.Second))
+		g := make([]byte, len(tunnelGreeting))
+		if n, err := io.ReadFull(conn, g); err != nil || string(g) != tunnelGreeting {
+			return "upstream-bytes-not-delivered-before-client-writes", fmt.Sprintf("%s: the upstream end wrote a %d-byte greeting on accept; 30s later the client, which has written nothing yet, has %d bytes of it (%q, err %v)", desc, len(tunnelGreeting), n, g[:n], err)
+		}
+	}
 	if c.Closer == "client-while-upstream-streams" {
 		// the service only sends; the client takes some of it and closes: the
 		// service's next writes must fail (the tunnel has no half-close)
@@ -898,6 +919,22 @@ func init() {
 			// forwarder): there the close must release that leg whatever the service
 			// does. A service that is the yamux end itself sees end-of-stream when
 			// it reads and decides for itself when to close.
+			// the upstream end speaks first (SMTP/SSH-style greeting): it must reach
+			// a client that has not written anything yet, on every path
+			for _, closer := range []string{"client", "upstream"} {
+				c := tunnelCase{Path: p, Size: 3, Closer: closer, Greet: true}
+				if run.Violations() < 3 {
+					sig, msg := w.run(c)
+					if sig == "tunnel-open-failed" {
+						e4.WaitAllActive(w.nodes, 30*time.Second)
+						sig, msg = w.run(c)
+					}
+					tn++
+					if sig != "" {
+						run.Violation("C07", sig, msg, map[string]any{"engine": "E4-C07", "case": c})
+					}
+				}
+			}
 			if p == "agent-tcpproxy" || p == "client-forwarder" {
 				c := tunnelCase{Path: p, Size: 65537, Closer: "client-while-upstream-streams"}
 				if run.Violations() < 3 {
@@ -947,7 +984,7 @@ func init() {
 		fmt.Printf("  C07 tunnels: cases=%d\n", tn)
 		run.Set("evaluations", evals+tn)
 		run.Set("distinct_nontrivial", nontrivial+tn)
-		run.Set("rule", "adapter: payload of n distinct bytes x every composition into messages x every placement of up to two empty messages x 8 read-buffer patterns x transport read limits {1,2,5,unlimited}, directions alternating on one connection, plus text message / ping / close frame / abrupt end; non-trivial = more than one message, an empty message or a fragmenting transport. tunnels: 5 paths (dialer local, dialer forwarded, forward proxy, agent TCP proxy, client forwarder) x sizes {1,3,64KiB+1,300KiB,600KiB (two single writes of 300KiB)} x empty write between x closer {client, upstream}, plus (agent TCP proxy, client forwarder) a send-only local service whose tunnel the client closes: the leg to the service is released; the same paths on a cluster whose proxy ports and node-to-node forwarding use TLS x sizes {3,64KiB+1} x closer; one long-lived tunnel per path on a plaintext and a TLS cluster, used every 400ms for 6.5s")
+		run.Set("rule", "adapter: payload of n distinct bytes x every composition into messages x every placement of up to two empty messages x 8 read-buffer patterns x transport read limits {1,2,5,unlimited}, directions alternating on one connection, plus text message / ping / close frame / abrupt end; non-trivial = more than one message, an empty message or a fragmenting transport. tunnels: 5 paths (dialer local, dialer forwarded, forward proxy, agent TCP proxy, client forwarder) x sizes {1,3,64KiB+1,300KiB,600KiB (two single writes of 300KiB)} x empty write between x closer {client, upstream}, the upstream end speaking first (greeting on accept, read by a client that has not written yet) x 5 paths x closer, plus (agent TCP proxy, client forwarder) a send-only local service whose tunnel the client closes: the leg to the service is released; the same paths on a cluster whose proxy ports and node-to-node forwarding use TLS x sizes {3,64KiB+1} x closer; one long-lived tunnel per path on a plaintext and a TLS cluster, used every 400ms for 6.5s")
 		run.Set("exhaustive", true)
 		run.Assume("tunnel half: goroutine schedules inside yamux/gorilla/net are free-running")
 		return run.Finish()
